@@ -272,12 +272,23 @@ def cell_change(g, k, r0, c0):
 
 def run(p):
     rng = p.rng
+    # keep at most 4 examples per key in the (capped) violation list, count every key in the statistics
+    orig_violation, per_key = p.violation, {}
+
+    def violation(key, clause, inp, observed, expected, call=None):
+        per_key[key] = per_key.get(key, 0) + 1
+        p.stats.add('key:' + key)
+        if per_key[key] <= 4:
+            orig_violation(key, clause, inp, observed, expected, call)
+        else:
+            p.stats.add('VIOLATION:' + clause)
+    p.violation = violation
     tr = Tracer()
     N.open = tr  # the reader's `open` (module namespace) -> tracing file; removed at the end
     tmpdir = tempfile.mkdtemp(prefix='c17probe', dir='/dev/shm' if os.path.isdir('/dev/shm') else None)
     path = os.path.join(tmpdir, 'p.gsb')
     try:
-        nfiles = p.n(120, 4000)
+        nfiles = p.n(120, 1500)
         for fi in range(nfiles):
             hdr, subs = gen_file(rng)
             data, offs = write_gsb(path, hdr, subs)
@@ -444,7 +455,12 @@ def check_query(p, tr, G, subs, offs, flen, desc, la, lo, method, cls, side):
     c = (lon - g['e']) / g['dlon']
     nr, nc = g['nrows'], g['ncols']
     r0, c0 = min(int(r), nr - 2), min(int(c), nc - 2)
-    ring = not (1 <= r0 <= nr - 3 and 1 <= c0 <= nc - 3)
+    # a position within rounding of a grid line may be assigned to either neighbouring cell by the
+    # binary64 quotient: it counts as outer ring if one of the candidate cells is in the ring
+    e9 = Fr(1, 10 ** 9)
+    cand_r = {min(int(max(r - e9, 0)), nr - 2), min(int(r + e9), nr - 2)}
+    cand_c = {min(int(max(c - e9, 0)), nc - 2), min(int(c + e9), nc - 2)}
+    ring = any(not (1 <= a <= nr - 3 and 1 <= b_ <= nc - 3) for a in cand_r for b_ in cand_c)
     where = 'outer-ring' if ring else 'interior'
     if cls == 'ulp_in' and side in 'nw':
         where = 'ulp-inside-' + side
@@ -502,8 +518,10 @@ def check_query(p, tr, G, subs, offs, flen, desc, la, lo, method, cls, side):
             p.check(abs(Fr(res[k]) - truth) <= tol, key('linear-not-reproduced'), 'reproduces_linear', inp, res[k], float(truth), call)
         if kind == 'biquadratic' and method == 'bicubic':
             truth = peval(g['polys'][k], r, c)
-            p.check(abs(Fr(res[k]) - truth) <= tol, key('biquadratic-not-reproduced'), 'bicubic_reproduces_biquadratic', inp, res[k],
-                    float(truth), call)
+            # one key per place (ring / interior), whatever the query class: with the bilinear fall-back of
+            # C17-1 the ring cannot reproduce bi-quadratic fields (documented limitation)
+            p.check(abs(Fr(res[k]) - truth) <= tol, f'bicubic:{"outer-ring" if ring else "interior"}:biquadratic-not-reproduced{sfx}',
+                    'bicubic_reproduces_biquadratic', inp, res[k], float(truth), call)
 
 
 # ------------------------------------------------------------------ hash-seed independence
